@@ -27,6 +27,13 @@ def acceptor(sc, r):
     res = r["results"]
     if not units:
         return None
+    if b"\r" in sc["hello"] or b"\n" in sc["hello"]:
+        # such a name cannot be the argument of one EHLO line: the connection attempt fails and at most QUIT is written
+        if any(not u.upper().startswith(b"QUIT") or u.count(b"\n") != 1 for u in units):
+            return "a hello name with CR/LF reached the wire: %r" % units[:3]
+        if res[0].startswith("conn,"):
+            return "connecting succeeded with a hello name that holds CR/LF"
+        return None
     if not re.fullmatch(rb"EHLO [^\r\n]+\r\n", units[0]):
         return "first command is not EHLO: %r" % units[0]
     if units[0] != b"EHLO " + sc["hello"] + b"\r\n":
@@ -94,7 +101,7 @@ def run(ctx):
         if ref:
             where = ref[0] if ref[0] != "rcptlast" else "rcpt%d" % (len(tos) - 1)
             steps = [(p, ref[1] if p == where else d) for p, d in steps]
-        scs.append({"hello": rng.choice([b"client.example", b"[127.0.0.1]", b"x"]), "script": [(d, False) for _, d in steps],
+        scs.append({"hello": rng.choice([b"client.example", b"[127.0.0.1]", b"x"] * 4 + [b"a\r\nNOOP", b"x\nRSET", b"cr\rhere", b"caf\xc3\xa9.example", b"a b"]), "script": [(d, False) for _, d in steps],
                     "ops": [("send", frm, tos, msg), ("quit",)]})
     bad, parsed, ml = run_differential(ctx, scs)
     ctx.cov["correspondence"]["dialogue"] = {"scenarios": len(scs), "flavors": ["sync", "tokio"], "disagreements": len(bad)}
@@ -143,6 +150,52 @@ def run(ctx):
         return bytes(out) == orig
     xbad = [k for k in range(len(lines)) if not xtext_ok(unhx(xi[k]), xs[k])]
     known = {e["class"]: e for e in load_known("C04")}
+    # transports configured by a connection URL (the EHLO name comes from the URL path) and by hello_name(): every command the peer reads
+    # is one line, in the order EHLO, MAIL, RCPT, DATA - whatever the name holds
+    from smtp import step, run_scenarios as _run, events_R
+    names = ["client.example.org", "a%0D%0ANOOP", "a%0ANOOP", "a%0Db", "%00x", "a%20b", "a%2520b", "xn--caf-dma.example", "[127.0.0.1]", "a%0D%0A%0D%0A."]
+    uscs, umeta = [], []
+    for nm in names:
+        for fl in ("sync", "tokio"):
+            script = [step("none", b"220 hi\r\n"), step("line", b"250-srv\r\n250 8BITMIME\r\n"), step("line", b"250 ok\r\n"), step("line", b"250 ok\r\n"), step("line", b"354 go\r\n"),
+                      step("data", b"250 queued\r\n"), step("line", b"221 bye\r\n")]
+            uscs.append({"id": 600000 + len(uscs), "flavor": fl, "timeout_ms": 1500, "server_cap_ms": 2000, "servers": [script],
+                         "ops": [{"op": "transport", "url": "smtp://127.0.0.1:{port}/" + nm}, {"op": "tsend", "from": hx(b"a@x.org"), "to": [hx(b"b@y.org")], "msg": hx(b"m\r\n")}, {"op": "tdrop"}]})
+            umeta.append((nm, fl))
+    # the same through the builder's hello_name(): a name holding CR or LF cannot be sent as one EHLO line, so nothing but (at most) QUIT
+    # may reach the peer; any other name arrives as the argument of one EHLO line
+    api_names = [b"client.example.org", b"a\r\nNOOP", b"a\nNOOP", b"a\rb", b"a\r\nMAIL FROM:<x@y>\r\nRCPT TO:<z@w>", b"a b", b"caf\xc3\xa9.example", b"[IPv6:::1]", b"x\r\n"]
+    for nm in api_names:
+        for fl in ("sync", "tokio"):
+            script = [step("none", b"220 hi\r\n"), step("line", b"250-srv\r\n250 8BITMIME\r\n"), step("line", b"250 ok\r\n"), step("line", b"250 ok\r\n"), step("line", b"354 go\r\n"),
+                      step("data", b"250 queued\r\n"), step("line", b"221 bye\r\n")]
+            uscs.append({"id": 600000 + len(uscs), "flavor": fl, "timeout_ms": 1500, "server_cap_ms": 2000, "servers": [script],
+                         "ops": [{"op": "transport", "hello": hx(nm)}, {"op": "tsend", "from": hx(b"a@x.org"), "to": [hx(b"b@y.org")], "msg": hx(b"m\r\n")}, {"op": "tdrop"}]})
+            umeta.append((nm, fl))
+    ubad = []
+    for (nm, fl), r, sc in zip(umeta, _run(uscs), uscs):
+        ctx.count()
+        res = (r.get("results") or [None, None])
+        if isinstance(res[0], str) and res[0].startswith("urlerr"):
+            continue                       # the URL was refused: nothing is sent
+        srv = (r.get("servers") or [None])[0]
+        Rs = events_R(srv) if srv else []
+        if isinstance(nm, bytes):
+            if b"\r" in nm or b"\n" in nm:
+                if isinstance(res[1], str) and res[1].startswith("ok") or any(x.strip().upper() != b"QUIT" for x in Rs):
+                    ubad.append((sc, "hello_name(%r) (%s): result %r, the peer read %r" % (nm, fl, res[1], [x[:40] for x in Rs[:5]])))
+                continue
+            if not Rs or Rs[0] != b"EHLO " + nm + b"\r\n":
+                ubad.append((sc, "hello_name(%r) (%s): the peer read %r" % (nm, fl, [x[:40] for x in Rs[:2]])))
+                continue
+        if isinstance(res[1], str) and res[1].startswith("err") and all(x.strip().upper() == b"QUIT" for x in Rs):
+            continue                       # the name was refused before anything was sent
+        verbs = [x.split(b" ")[0].split(b":")[0].strip().upper() for x in Rs[:4]]
+        if any(x.count(b"\n") != 1 or x.count(b"\r") != 1 or not x.endswith(b"\r\n") for x in Rs[:4]) or verbs[:4] != [b"EHLO", b"MAIL", b"RCPT", b"DATA"]:
+            ubad.append((sc, "URL hello name %r (%s): the peer read %r" % (nm, fl, [x[:40] for x in Rs[:5]])))
+    ctx.cov["oracle"]["url_hello_name_one_command_per_line"] = {"cases": len(uscs), "failures": len(ubad)}
+    if ubad:
+        ctx.violation({"kind": "oracle", "entry": "from_url hello name", "what": ubad[0][1], "scenario": ubad[0][0], "failures": len(ubad)})
     ctx.cov["oracle"]["rfc3461_xtext_on_impl"] = {"cases": len(lines), "failures": len(xbad)}
     ctx.cov["correspondence"]["xtext"] = {"cases": len(lines), "disagreements": len(xdiff), "exhaustive": "all 128 ASCII bytes singly"}
     if xbad:
